@@ -88,6 +88,16 @@ func (c *check) Init(tier string, seed int64) engine.Space {
 	}
 	c.vmenus = nil
 	bounds := map[string]any{}
+	// horizontal product: one-box documents, the simplest of the space, come first (a run that
+	// is cut by its deadline on a loaded machine has still covered the whole of §10.3.3/§10.4)
+	const hBatch = 96
+	for lo := int64(0); lo < c.hs.size(); lo += hBatch {
+		hi := lo + hBatch
+		if hi > c.hs.size() {
+			hi = c.hs.size()
+		}
+		c.units = append(c.units, unit{space: spH, lo: lo, hi: hi})
+	}
 	var vdesc []string
 	for mi := range plans {
 		m := plans[mi].m
@@ -104,15 +114,6 @@ func (c *check) Init(tier string, seed int64) engine.Space {
 			skel = "every box holds one line"
 		}
 		vdesc = append(vdesc, fmt.Sprintf("%d divs (%d shapes), skeleton: %s, <= %d deviations, padding and border on both sides: %v", m.nBoxes, len(sh), skel, m.maxLevel, m.wide))
-	}
-	// horizontal product
-	const hBatch = 96
-	for lo := int64(0); lo < c.hs.size(); lo += hBatch {
-		hi := lo + hBatch
-		if hi > c.hs.size() {
-			hi = c.hs.size()
-		}
-		c.units = append(c.units, unit{space: spH, lo: lo, hi: hi})
 	}
 	// cross term
 	for mi := range plans {
@@ -140,16 +141,16 @@ func (c *check) Init(tier string, seed int64) engine.Space {
 	}
 	bounds["vertical"] = vdesc
 	bounds["vertical_menu"] = "margin-top/bottom {0,10,-4,20}px; top padding|border {0,2px}; bottom border|padding {0,2px}; height {auto,15px,0}; content {nothing, one 10px line (before or after the child blocks)}; trailing sentinel line {present, absent}"
-	bounds["horizontal"] = fmt.Sprintf("full product: width {auto,50px,50%%,200px} x margin-left/right {0,auto,7px,-3px,10%%} x min-width {none,30px,80px} x max-width {none,30px,80px} x box-sizing x %d padding/border sets (padding 3px|5px, border 2px|4px) x %d containers; a child with percentages probes the content box", len(c.hs.padSets), c.hs.containers)
+	bounds["horizontal"] = fmt.Sprintf("full product: width {auto,50px,50%%,200px} x margin-left/right {0,auto,7px,-3px,10%%,150px} x min-width {none,30px,80px} x max-width {none,30px,80px} x box-sizing x %d padding/border sets (padding 3px|5px, border 2px|4px) x %d containers; a child with percentages probes the content box. With width:50px the 150px margin puts border+padding+width+margin exactly at the 200px containing width (no padding/border, or border-box) or above it (padding/border, 120px container, width:50%%) while width alone fits: the pre-test of 10.3.3 is decided by one specified margin, with the other margin auto (either side), 0 or a length", len(c.hs.padSets), c.hs.containers)
 	chunk := int64(4)
 	return engine.Space{
 		Units: int64(len(c.units)), Chunk: chunk, Level: "model_checking",
-		Rule:     "deviation lattice (vertical menu) over every shape, simplest first; full product (horizontal menu); cross term; a unit is one (shape, slot subset) with all its value assignments, or a batch of the product. A case is non-trivial when at least one box other than body and the sentinel is observable (non-zero border-box area or own text), so that a position clause is evaluated",
+		Rule:     "full product (horizontal menu); deviation lattice (vertical menu) over every shape, simplest first; cross term; a unit is one (shape, slot subset) with all its value assignments, or a batch of the product. A case is non-trivial when at least one box other than body and the sentinel is observable (non-zero border-box area or own text), so that a position clause is evaluated",
 		Bounds:   bounds,
 		CaseCPUs: 10,
 		Assumptions: []string{
 			"left-to-right documents, one page, no floats/clearance/positioning/tables/replaced elements",
-			"margin values outside {0,10,-4,20}px, 10% and auto, and trees deeper than 4 divs, are not explored",
+			"vertical margin values outside {0,10,-4,20}px, 10% and auto, horizontal margin values outside {0,7,-3,150}px, 10% and auto, and trees deeper than 4 divs, are not explored",
 			"positions of boxes without border-box area and without own text are not compared (nothing observable depends on them)",
 			"the used margin-right of an over-constrained box is not compared (not stored by the implementation, not observable)",
 		},
